@@ -84,11 +84,13 @@ contract(
 contract(
     f'{I}.memory_usage', props=['C13'], result=KDict(KStr, KInt),
     requires=PENDING('_a_factor') + PENDING('_g_factor') + PENDING('_a_inv') + PENDING('_g_inv'),
-    ensures=[('six_entries', 'len(result) == 6'),
+    ensures=[('six_entries', "len(result) == 6 and key_at(result, 0) == 'a_factors' and key_at(result, 1) == 'g_factors' and key_at(result, 2) == 'a_batch' "
+                             "and key_at(result, 3) == 'g_batch' and key_at(result, 4) == 'a_inverses' and key_at(result, 5) == 'g_inverses'"),
              ('inverse_bytes', "result['a_inverses'] == bytes_of(old(awaited(self._a_inv))) and result['g_inverses'] == bytes_of(old(awaited(self._g_inv)))"),
              ('factor_bytes', "result['a_factors'] == bytes_of(old(awaited(self._a_factor))) and result['g_factors'] == bytes_of(old(awaited(self._g_factor))) "
-                              "and result['a_batch'] == bytes_of(self._a_batch) and result['g_batch'] == bytes_of(self._g_batch)")],
-    modifies=['self._a_factor', 'self._g_factor', 'self._a_inv', 'self._g_inv', '*.resolved'],
+                              "and result['a_batch'] == bytes_of(self._a_batch) and result['g_batch'] == bytes_of(self._g_batch)"),
+             ('tensors_kept', ' and '.join(f'awaited(self.{f}) is old(awaited(self.{f}))' for f in ('_a_factor', '_g_factor', '_a_inv', '_g_inv')))],
+    modifies=['self._a_factor', 'self._g_factor', 'self._a_inv', 'self._g_inv', '*.resolved'], theories=['opaque_nonlinear'],
 )
 
 # C01 (inverse method): the formula proved above solves the damped Kronecker system
@@ -174,12 +176,14 @@ contract(
 contract(
     f'{E}.memory_usage', props=['C13'], result=KDict(KStr, KInt),
     requires=PENDING('_a_factor') + PENDING('_g_factor') + SO_PENDING,
-    ensures=[('six_entries', 'len(result) == 6'),
+    ensures=[('six_entries', "len(result) == 6 and key_at(result, 0) == 'a_factors' and key_at(result, 1) == 'g_factors' and key_at(result, 2) == 'a_batch' "
+                             "and key_at(result, 3) == 'g_batch' and key_at(result, 4) == 'a_inverses' and key_at(result, 5) == 'g_inverses'"),
              ('second_order_bytes', "result['a_inverses'] == bytes_of(old(awaited(self._qa))) + bytes_of(old(awaited(self._da))) and "
                                     "result['g_inverses'] == bytes_of(old(awaited(self._qg))) + bytes_of(old(awaited(self._dg))) + bytes_of(old(awaited(self._dgda)))"),
              ('factor_bytes', "result['a_factors'] == bytes_of(old(awaited(self._a_factor))) and result['g_factors'] == bytes_of(old(awaited(self._g_factor))) "
-                              "and result['a_batch'] == bytes_of(self._a_batch) and result['g_batch'] == bytes_of(self._g_batch)")],
-    modifies=['self._a_factor', 'self._g_factor'] + [f'self.{f}' for f in SO] + ['*.resolved'],
+                              "and result['a_batch'] == bytes_of(self._a_batch) and result['g_batch'] == bytes_of(self._g_batch)"),
+             ('tensors_kept', ' and '.join(f'awaited(self.{f}) is old(awaited(self.{f}))' for f in ['_a_factor', '_g_factor'] + SO))],
+    modifies=['self._a_factor', 'self._g_factor'] + [f'self.{f}' for f in SO] + ['*.resolved'], theories=['opaque_nonlinear'],
 )
 
 BC_REQ = [('member_of_group', 'in_group(group)'), ('root_is_member', 'rank_in_group(src, group)'), ('tdc_present', 'self.tdc is not None')]
